@@ -72,6 +72,7 @@ def field_is(literal):
 
 
 CSV_INSTANT_US = z3.Function('csv_instant_us', z3.IntSort(), z3.IntSort(), z3.IntSort())      # UTC instant a time field denotes
+CSV_UTC_OFFSET_US = z3.Function('csv_utc_offset_us', z3.IntSort(), z3.IntSort(), z3.IntSort())   # its UTC offset (0 without %z)
 
 
 def csv_field(row, col, lowered=False):
